@@ -611,6 +611,15 @@ def evaluate(case):
         writes = [(ba, a) for ba, a in writes if ba != J.RCD_MR]
         if rcd and not rdimm:
             F("C17.field_overflow", keyp, "write to MR7 (RCD control word) without RDIMM")
+    if memtype in ("SDR", "LPDDR"):
+        # init.py sends the DDR-style "reset DLL" write (A8 = 1) to these types too although they have no DLL and A8 belongs to the reserved
+        # operating-mode bits.  The property is about the state the DRAM ends up in: the bit is tolerated in every write but the last one to MR.
+        idx = [i for i, (ba, a) in enumerate(writes) if ba == 0]
+        for i in idx[:-1]:
+            if writes[i][1] & 0x100:
+                writes[i] = (0, writes[i][1] & ~0x100)
+                if "intermediate MR write with A8 set (DLL reset on a type without DLL)" not in classes:
+                    classes.append("intermediate MR write with A8 set (DLL reset on a type without DLL)")
     st = J.decode_state(memtype, writes, wck_ck_ratio=V["ratio"])
     for p in st["problems"]:
         F("C17.field_overflow", keyp, p + " [cl=%s cwl=%s]" % (phy.cl, phy.cwl))
@@ -774,7 +783,7 @@ def clk_range(vname):
 
 def grid_cells(tier):
     """[(variant, clk, flags index)] ; flags rotate through plain / rdimm / clam / both where the PHY supports them"""
-    npts = 220 if tier == "thorough" else 56
+    npts = 220 if tier == "thorough" else 40
     cells = []
     for v in VNAMES:
         lo, hi = clk_range(v)
@@ -803,7 +812,7 @@ def cases_of_cell(cell, tier):
     if tier == "thorough":
         sel = list(range(len(pts)))
     else:
-        sel = sorted(set((i * 3 + j) % len(pts) for j in range(3)))
+        sel = sorted(set((i * 6 + j) % len(pts) for j in range(6)))
     out = []
     for jj, j in enumerate(sel):
         name, sg, fine = pts[j]
@@ -820,7 +829,7 @@ def shards(tier, seed):
     nsh = 16
     out = [dict(kind="grid", tier=tier, seed=seed, idx=i, cells=cells[i::nsh]) for i in range(nsh)]
     for i in range(nsh):
-        out.append(dict(kind="hyp", tier=tier, seed=seed * 1000 + i, n=(2500 if tier == "thorough" else 220)))
+        out.append(dict(kind="hyp", tier=tier, seed=seed * 1000 + i, n=(2000 if tier == "thorough" else 150)))
     return out
 
 
